@@ -472,5 +472,60 @@ pub fn run(prop: &str, tier: &str, replay: Option<&str>) -> i32 {
         rep.add(sec);
     }
     let _ = stub_key;
+    // name constraints of a foreign CA that mix the subtree forms rcgen can hold (dNSName, rfc822Name, iPAddress,
+    // directoryName) with forms it cannot (URI, otherName, registeredID): whatever the importer does with the
+    // latter, every supported subtree of each list is recovered, in either list, wherever it stands
+    #[cfg(feature = "crypto")]
+    {
+        use refmodel::gen::{ext_nc, RefExt};
+        use refmodel::x509::{AbsGn, OID_NC};
+        let zoo = load_zoo();
+        let z = zoo.iter().find(|z| z.kind == KeyKind::Ed25519).unwrap();
+        let forms: Vec<(&str, AbsGn, Option<String>)> = vec![
+            ("dns", AbsGn::Dns(b"example.com".to_vec()), Some("dns:example.com".into())),
+            ("email", AbsGn::Email(b"mail.example".to_vec()), Some("email:mail.example".into())),
+            ("ip4", AbsGn::Ip(vec![10, 0, 0, 0, 255, 0, 0, 0]), Some(format!("ip4:{:?}/{:?}", [10u8, 0, 0, 0], [255u8, 0, 0, 0]))),
+            ("uri", AbsGn::Uri(b".example.com".to_vec()), None),
+            ("otherName", AbsGn::Other { oid: vec![1, 2, 3], tag: refmodel::der::T_UTF8, value: b"x".to_vec() }, None),
+            ("registeredID", AbsGn::Unsupported(8, refmodel::der::ctx_prim(8, &[0x2a, 0x03])), None),
+        ];
+        let mut lists: Vec<Vec<usize>> = vec![];
+        for a in 0..forms.len() {
+            lists.push(vec![a]);
+            for b in 0..forms.len() {
+                lists.push(vec![a, b]);
+                for c in 0..forms.len() {
+                    if thorough || (a < 3) != (b < 3) || (b < 3) != (c < 3) {
+                        lists.push(vec![a, b, c]);
+                    }
+                }
+            }
+        }
+        let cases: Vec<(usize, bool)> = (0..lists.len()).flat_map(|i| [(i, false), (i, true)]).collect();
+        let sec = Section::new("foreign-ca/name-constraints mixing forms", &format!("{} reference-built CA certificates whose permitted (or excluded) subtrees are every list of <= 3 forms over dNSName, rfc822Name, iPAddress, URI, otherName, registeredID: the import either refuses the certificate or recovers every supported subtree of the list", cases.len()));
+        run::sweep_cases(&sec, &cases, &|c| format!("{} = {:?}", if c.1 { "excluded" } else { "permitted" }, lists[c.0].iter().map(|i| forms[*i].0).collect::<Vec<_>>()), &|c| {
+            let mut out = Outcome::default();
+            let gns: Vec<AbsGn> = lists[c.0].iter().map(|i| forms[*i].1.clone()).collect();
+            let mut want: Vec<String> = lists[c.0].iter().filter_map(|i| forms[*i].2.clone()).collect();
+            want.sort();
+            let nc = if c.1 { ext_nc(&[], &gns, true) } else { ext_nc(&gns, &[], true) };
+            let der = crate::corpus::foreign_ca_with_exts(&[RefExt::new(OID_NC, true, nc)], &z.spki);
+            out.digest = fnv(&der);
+            out.transitions = 1;
+            match guarded(|| rcgen::CertificateParams::from_ca_cert_der(&der.clone().into())) {
+                Err(p) => out.findings.push(Finding::new("IMPORT-PANIC", "from_ca_cert_der", p)),
+                Ok(Err(_)) => {}
+                Ok(Ok(p)) => {
+                    let pr = project_real(&p);
+                    let (got, other) = if c.1 { (&pr.excluded, &pr.permitted) } else { (&pr.permitted, &pr.excluded) };
+                    if got != &want || !other.is_empty() {
+                        out.findings.push(Finding::new(if c.1 { "IMP-VALUE(name_constraints.excluded)" } else { "IMP-VALUE(name_constraints.permitted)" }, "p' (imported)", format!("want the supported subtrees {:?}, got {:?} (other list {:?})", want, got, other)));
+                    }
+                }
+            }
+            out
+        });
+        rep.add(sec);
+    }
     run::finish(rep)
 }
